@@ -1,5 +1,5 @@
 (* C17 — Comments, layout and annotations are inert. *)
-From GX Require Import Base Expr Topo Ode Load LoadSound Perm Annot.
+From GX Require Import Base Expr Topo Ode Load LoadSound Perm Annot Parse Lex.
 Open Scope string_scope.
 Open Scope list_scope.
 
@@ -35,3 +35,25 @@ Print Assumptions C17_partial_annotations_do_not_change_the_layout.
 (* Partial: the lexer-level part of the property (a comment line inside a headed expressions block
    ends the block; an empty trailing comment swallows the next line; a comment directly after a block
    header is a syntax error; hangs) is outside the item-level model; it is searched by execution. *)
+
+(* layout inside an expression: the lexer (Lex.lex, the terminals of ode.lark) produces the same tokens whatever white space
+   - blanks, tabs, line feeds, form feeds, carriage returns, in any number - leads the text and separates the tokens; in
+   particular an expression continued over several lines is the expression written on one *)
+Theorem C17_white_space_between_tokens_is_inert :
+  forall lead l, all_chars is_space lead = true -> Forall laid l ->
+    lex (lead ++ layout l) = Some (map (fun tw => tok_of (fst tw)) l).
+Proof. exact lex_layout. Qed.
+Print Assumptions C17_white_space_between_tokens_is_inert.
+
+Theorem C17_two_layouts_of_the_same_tokens_are_read_alike :
+  forall lead1 lead2 l1 l2,
+    all_chars is_space lead1 = true -> all_chars is_space lead2 = true -> Forall laid l1 -> Forall laid l2 ->
+    map fst l1 = map fst l2 ->
+    lex (lead1 ++ layout l1) = lex (lead2 ++ layout l2)
+    /\ parse_string (lead1 ++ layout l1) = parse_string (lead2 ++ layout l2).
+Proof.
+  intros lead1 lead2 l1 l2 H1 H2 F1 F2 E. pose proof (layout_is_inert lead1 lead2 l1 l2 H1 H2 F1 F2 E) as H.
+  split; [exact H|]. unfold parse_string. rewrite H. reflexivity.
+Qed.
+Print Assumptions C17_two_layouts_of_the_same_tokens_are_read_alike.
+
